@@ -165,8 +165,8 @@ def gen_params(rng, nd, transposition=False, small=False):
         p['max_iterations'] = rng.choice([1, 2, 3])
     if rng.random() < 0.2:
         p['characterize'] = False
-    if rng.random() < 0.25 and nd == 2 and not small:
-        p['engine'] = rng.choice(['python', 'numba'])
+    if rng.random() < 0.25 and not small:
+        p['engine'] = rng.choice(['python', 'numba'])        # 3-D too: the 3-D kernels have their own table set-up
     if transposition:
         p['preprocess'] = False
         # without preprocessing noise_size only enters the reported uncertainty: one number per axis, permuted with the axes
@@ -252,6 +252,8 @@ def candidates(img, p):
         if thr is None:
             thr = 1 / 255. if is_float else 1
         image = bandpass(img, ns, sm, thr) if p.get('preprocess', True) else img
+        if not p.get('preprocess', True) and np.issubdtype(img.dtype, np.signedinteger):
+            image = image.clip(min=0)          # as locate does since fix F18 (negative pixels carry no brightness)
         sf, image = convert_to_int(image, np.uint8 if is_float else img.dtype)
         co = grey_dilation(image, sep, p.get('percentile', 64), margin, precise=False)
         return refine_com(img, image, rad, co, max_iterations=p.get('max_iterations', 10),
@@ -377,7 +379,6 @@ def gen_translation(rng, tier, small=False):
             p.pop(k, None)
     if nd == 3:
         p['max_iterations'] = rng.choice([1, 2, 3])
-        p.pop('engine', None)
     if isinstance(p.get('noise_size'), tuple) or p.get('noise_size', 1) >= 3:
         pass
     d, rad, sep, sm, ns, margin = axis_values(p, nd)
@@ -1855,6 +1856,15 @@ def run(chk):
             chk.tally('pre: skipped (Gen/locatehead.v is not the translation of the current source)')
     else:
         chk.tally('head: executable model not available (see the proof-broken report)')
+    # the memoised mask / weight tables are shared by every locate call of the process: what a call reports must not depend on
+    # the calls made before it, so each cached table must still be what its function computes
+    from props import c04 as _c04
+    ntab, badtab = _c04.memo_purity()
+    chk.tally('memoised tables compared with a fresh computation (%d)' % ntab)
+    if badtab:
+        chk.violation('memoised table modified', 'after the locate / batch calls of this run the shared memoised table %s%s no longer equals what the function '
+                      'computes: every later locate call of the process reads the altered table (results depend on the call history)' % badtab[0],
+                      dict(kind='memo', tables=badtab))
     chk.coverage['rule'] = ("(T) content images (blobs, plateaus, dim ladders, noise, few grey levels, close pairs; uint8/uint16/float; 2-D/3-D) pasted at two "
                             "integer offsets into blank canvases that keep margin + radius + max_iterations + filter reach from the edge, canvas size equal or "
                             "different, incl. two 1200x1000 canvases; locate parameters random; "
